@@ -9,6 +9,7 @@ package main
 import (
 	"context"
 	"encoding/json"
+	"errors"
 	"flag"
 	"fmt"
 	"os"
@@ -35,6 +36,13 @@ type Scenario struct {
 	Depth   int    `json:"depth"`   // recursion depth of re-entrant Sends from Process
 	Types   int    `json:"types,omitempty"` // failing-nodes: event types (1..3)
 	Pipes   int    `json:"pipes,omitempty"` // failing-nodes: pipelines per type (1..2)
+	// failing-nodes: what the failing nodes return: 0 a plain error, 1 a sentinel wrapped with %w, 2 context.Canceled, 3 a type of
+	// its own with Is / Timeout / Temporary, 4 errors.Join of two errors, 5 one shared error value returned by every failing
+	// node, 6 a typed nil pointer (non-nil as an error), 7 an error whose text is empty
+	ErrClass int `json:"err_class,omitempty"`
+	// the context of the removal / Reopen call: 0 Background, 1 already cancelled, 2 deadline in the past, 3 a type of our own that is done,
+	// 4 cancelled while the call runs
+	Ctx     int    `json:"ctx,omitempty"`
 	InStmt  bool   `json:"in_statement"` // false: outside C12's statement -- observed only (no scenario is any more)
 	Comment string `json:"comment,omitempty"`
 }
@@ -111,19 +119,88 @@ func (p *plain) Type() el.NodeType { return p.typ }
 type failing struct {
 	plain
 	reopenErr, closeErr bool
+	class               int
+}
+
+var errSentinel = errors.New("sentinel")
+var errShared = errors.New("shared failure value")
+
+type ownErr struct{ what string }
+
+func (e *ownErr) Error() string {
+	if e == nil {
+		return "typed nil error"
+	}
+	return e.what
+}
+func (e *ownErr) Is(target error) bool { return target == errSentinel }
+func (e *ownErr) Timeout() bool        { return true }
+func (e *ownErr) Temporary() bool      { return true }
+
+type emptyErr struct{}
+
+func (emptyErr) Error() string { return "" }
+
+func errOfClass(class int, what string) error {
+	switch class {
+	case 1:
+		return fmt.Errorf("%s: %w", what, errSentinel)
+	case 2:
+		return context.Canceled
+	case 3:
+		return &ownErr{what: what}
+	case 4:
+		return errors.Join(fmt.Errorf("%s (first)", what), context.DeadlineExceeded)
+	case 5:
+		return errShared
+	case 6:
+		var e *ownErr
+		return e
+	case 7:
+		return emptyErr{}
+	}
+	return fmt.Errorf("%s", what)
 }
 
 func (f *failing) Reopen() error {
 	if f.reopenErr {
-		return fmt.Errorf("reopen failed")
+		return errOfClass(f.class, "reopen failed")
 	}
 	return nil
 }
 func (f *failing) Close(ctx context.Context) error {
 	if f.closeErr {
-		return fmt.Errorf("close failed")
+		return errOfClass(f.class, "close failed")
 	}
 	return nil
+}
+
+type ownCtx struct {
+	context.Context
+	done chan struct{}
+}
+
+func (c ownCtx) Done() <-chan struct{} { return c.done }
+func (c ownCtx) Err() error            { return errShared }
+
+func callerCtx(kind int) (context.Context, func()) {
+	switch kind {
+	case 1:
+		c, cancel := context.WithCancel(context.Background())
+		cancel()
+		return c, func() {}
+	case 2:
+		return context.WithDeadline(context.Background(), time.Now().Add(-time.Hour))
+	case 3:
+		ch := make(chan struct{})
+		close(ch)
+		return ownCtx{Context: context.Background(), done: ch}, func() {}
+	case 4:
+		c, cancel := context.WithCancel(context.Background())
+		go func() { runtime.Gosched(); cancel() }()
+		return c, func() {}
+	}
+	return context.Background(), func() {}
 }
 
 // re-enters Send from Process / Close / Reopen
@@ -274,6 +351,9 @@ func runScenario(sc Scenario, watchdog, parkDelay time.Duration) Result {
 	r := &runner{watchdog: watchdog, res: &res, ptr: fmt.Sprintf("%p", b)}
 	w := &world{b: b, parkDelay: parkDelay, parked: sc.Parked}
 	ctx := context.Background()
+	// the caller's context of the calls that close / reopen nodes
+	cctx, release := callerCtx(sc.Ctx)
+	defer release()
 
 	// a plain pipeline for the re-entrant Sends to land in
 	fmtN, sinkN := &plain{typ: el.NodeTypeFormatter}, &plain{typ: el.NodeTypeSink}
@@ -306,13 +386,13 @@ func runScenario(sc Scenario, watchdog, parkDelay time.Duration) Result {
 		case "Send":
 			ok = r.step("Send(outer)", func() error { _, err := b.Send(ctx, "outer", "x"); return err })
 		case "Reopen":
-			ok = r.step("Reopen", func() error { return b.Reopen(ctx) })
+			ok = r.step("Reopen", func() error { return b.Reopen(cctx) })
 		case "RemovePipelineAndNodes":
-			ok = r.step("RemovePipelineAndNodes(outer)", func() error { _, err := b.RemovePipelineAndNodes(ctx, "outer", "outer"); return err })
+			ok = r.step("RemovePipelineAndNodes(outer)", func() error { _, err := b.RemovePipelineAndNodes(cctx, "outer", "outer"); return err })
 		case "RemoveNode":
 			ok = r.step("RemovePipeline(outer)", func() error { return b.RemovePipeline("outer", "outer") })
 			if ok {
-				ok = r.step("RemoveNode(re)", func() error { return b.RemoveNode(ctx, "re") })
+				ok = r.step("RemoveNode(re)", func() error { return b.RemoveNode(cctx, "re") })
 			}
 		default:
 			// any other operation, issued while a re-entrant Send is in flight
@@ -349,7 +429,7 @@ func runScenario(sc Scenario, watchdog, parkDelay time.Duration) Result {
 		for i := range pls {
 			n := el.NodeID(fmt.Sprintf("fn%d", i))
 			pls[i].node = n
-			must(b.RegisterNode(n, &failing{plain: plain{typ: el.NodeTypeFilter}, reopenErr: pls[i].fail && sc.Op == "Reopen", closeErr: pls[i].fail && sc.Op != "Reopen"}))
+			must(b.RegisterNode(n, &failing{plain: plain{typ: el.NodeTypeFilter}, reopenErr: pls[i].fail && sc.Op == "Reopen", closeErr: pls[i].fail && sc.Op != "Reopen", class: sc.ErrClass}))
 			must(b.RegisterNode(n+"-fmt", &plain{typ: el.NodeTypeFormatter}))
 			must(b.RegisterNode(n+"-sink", &plain{typ: el.NodeTypeSink}))
 			must(b.RegisterPipeline(el.Pipeline{PipelineID: pls[i].id, EventType: pls[i].t, NodeIDs: []el.NodeID{n, n + "-fmt", n + "-sink"}}))
@@ -362,9 +442,9 @@ func runScenario(sc Scenario, watchdog, parkDelay time.Duration) Result {
 		}
 		switch sc.Op {
 		case "Reopen":
-			ok = r.step("Reopen", func() error { return expect("Reopen", b.Reopen(ctx), placed > 0) })
+			ok = r.step("Reopen", func() error { return expect("Reopen", b.Reopen(cctx), placed > 0) })
 			if ok {
-				ok = r.step("Reopen (again)", func() error { return expect("Reopen", b.Reopen(ctx), placed > 0) })
+				ok = r.step("Reopen (again)", func() error { return expect("Reopen", b.Reopen(cctx), placed > 0) })
 			}
 		case "RemovePipelineAndNodes":
 			for i := range pls {
@@ -373,7 +453,7 @@ func runScenario(sc Scenario, watchdog, parkDelay time.Duration) Result {
 				}
 				p := pls[i]
 				ok = r.step(fmt.Sprintf("RemovePipelineAndNodes(%s,%s)", p.t, p.id), func() error {
-					_, err := b.RemovePipelineAndNodes(ctx, p.t, p.id)
+					_, err := b.RemovePipelineAndNodes(cctx, p.t, p.id)
 					return expect("RemovePipelineAndNodes", err, p.fail)
 				})
 			}
@@ -385,7 +465,7 @@ func runScenario(sc Scenario, watchdog, parkDelay time.Duration) Result {
 				p := pls[i]
 				ok = r.step(fmt.Sprintf("RemovePipeline(%s,%s)", p.t, p.id), func() error { return b.RemovePipeline(p.t, p.id) })
 				if ok {
-					ok = r.step(fmt.Sprintf("RemoveNode(%s)", p.node), func() error { return expect("RemoveNode", b.RemoveNode(ctx, p.node), p.fail) })
+					ok = r.step(fmt.Sprintf("RemoveNode(%s)", p.node), func() error { return expect("RemoveNode", b.RemoveNode(cctx, p.node), p.fail) })
 				}
 			}
 		}
@@ -411,15 +491,15 @@ func runScenario(sc Scenario, watchdog, parkDelay time.Duration) Result {
 				defer close(opDone)
 				switch sc.Op {
 				case "RemovePipelineAndNodes(other pipeline)":
-					_, _ = b.RemovePipelineAndNodes(ctx, "outer", "outer2")
+					_, _ = b.RemovePipelineAndNodes(cctx, "outer", "outer2")
 				case "RemovePipelineAndNodes(in-flight pipeline)":
-					_, _ = b.RemovePipelineAndNodes(ctx, "outer", "outer")
+					_, _ = b.RemovePipelineAndNodes(cctx, "outer", "outer")
 				case "RemovePipeline":
 					_ = b.RemovePipeline("outer", "outer2")
 				case "RegisterPipeline":
 					_ = b.RegisterPipeline(el.Pipeline{PipelineID: "outer3", EventType: "outer", NodeIDs: []el.NodeID{"fmt3", "sink3"}})
 				case "RemoveNode":
-					_ = b.RemoveNode(ctx, "unused")
+					_ = b.RemoveNode(cctx, "unused")
 				case "RegisterNode":
 					_ = b.RegisterNode("extra", &plain{typ: el.NodeTypeFilter})
 				case "SetSuccessThreshold":
@@ -427,7 +507,7 @@ func runScenario(sc Scenario, watchdog, parkDelay time.Duration) Result {
 				case "SetSuccessThresholdSinks":
 					_ = b.SetSuccessThresholdSinks("outer", 0)
 				case "Reopen":
-					_ = b.Reopen(ctx)
+					_ = b.Reopen(cctx)
 				default:
 					panic("unknown op " + sc.Op)
 				}
@@ -494,14 +574,14 @@ func runScenario(sc Scenario, watchdog, parkDelay time.Duration) Result {
 			case "gated-close":
 				switch sc.Op {
 				case "RemovePipelineAndNodes":
-					ok = r.step("RemovePipelineAndNodes(outer)", func() error { _, err := b.RemovePipelineAndNodes(ctx, "outer", "outer"); return err })
+					ok = r.step("RemovePipelineAndNodes(outer)", func() error { _, err := b.RemovePipelineAndNodes(cctx, "outer", "outer"); return err })
 				case "RemoveNode":
 					ok = r.step("RemovePipeline(outer)", func() error { return b.RemovePipeline("outer", "outer") })
 					if ok && sc.Target == "self" {
 						ok = r.step("RemovePipeline(composed)", func() error { return b.RemovePipeline("composed", "c") })
 					}
 					if ok {
-						ok = r.step("RemoveNode(g)", func() error { return b.RemoveNode(ctx, "g") })
+						ok = r.step("RemoveNode(g)", func() error { return b.RemoveNode(cctx, "g") })
 					}
 				}
 			case "gated-expire":
@@ -604,6 +684,11 @@ func allScenarios(r *hc.Rand, repeat int) []Scenario {
 					add(Scenario{Kind: "reenter-close", Op: op, Target: tgt, Parked: parked})
 				}
 			}
+			for c := 1; c <= 4; c++ {
+				add(Scenario{Kind: "reenter-close", Op: []string{"RemovePipelineAndNodes", "RemoveNode"}[c%2], Target: "other", Parked: parked, Ctx: c})
+				add(Scenario{Kind: "gated-close", Op: []string{"RemovePipelineAndNodes", "RemoveNode"}[c%2], Groups: 2, Target: "other", Parked: parked, Ctx: c})
+				add(Scenario{Kind: "reenter-reopen", Op: "Reopen", Target: "other", Parked: parked, Ctx: c})
+			}
 			// a node re-entering Send from Reopen, with and without a writer parked on the lock
 			add(Scenario{Kind: "reenter-reopen", Op: "Reopen", Target: "other", Parked: parked})
 			// every other operation issued while a re-entrant Send is in flight
@@ -629,6 +714,15 @@ func allScenarios(r *hc.Rand, repeat int) []Scenario {
 								add(Scenario{Kind: "failing-nodes", Op: op, Groups: k, Types: types, Pipes: pipes, Target: "other"})
 							}
 						}
+					}
+					// what the failing nodes return, and the caller's context: the call returns an error iff a node failed, whatever
+					// the kind of error value and whether or not the context is done
+					for class := 1; class <= 7; class++ {
+						add(Scenario{Kind: "failing-nodes", Op: op, Groups: 2, Types: 2, Pipes: 1, Target: "other", ErrClass: class, Ctx: class % 5})
+					}
+					for c := 1; c <= 4; c++ {
+						add(Scenario{Kind: "failing-nodes", Op: op, Groups: 1, Types: 1, Pipes: 2, Target: "other", Ctx: c})
+						add(Scenario{Kind: "failing-nodes", Op: op, Groups: 0, Types: 2, Pipes: 1, Target: "other", Ctx: c})
 					}
 				}
 			}
